@@ -235,6 +235,7 @@ func genC02(w *World, res *CheckResult) {
 			res.Assumptions = append(res.Assumptions, e.Notes()...)
 		}
 	}
+	genFoldUnary(w, res)
 	genInRange(w, res)
 	genInArray(w, res)
 	genConstRange(w, res)
@@ -351,6 +352,46 @@ func TestVerifReplay(t *testing.T) {
 	op, typ := o.Meta["op"], o.Meta["type"]
 	if op == "" || typ == "untyped" || typ == "interface" {
 		return "", false
+	}
+	if strings.HasPrefix(op, "unary") {
+		sign := strings.TrimPrefix(op, "unary")
+		var cases []string
+		for _, l := range []string{"4", "0", "1", "300", "9007199254740993"} {
+			cases = append(cases, fmt.Sprintf("%q", "F("+sign+l+")"), fmt.Sprintf("%q", "F("+sign+l+" * 3)"))
+		}
+		src := fmt.Sprintf(`package expr_test
+
+import (
+	"fmt"
+	"testing"
+
+	"github.com/antonmedv/expr"
+)
+
+// replay of obligation %s
+func TestVerifReplay(t *testing.T) {
+	env := map[string]interface{}{"F": func(x %s) %s { return x }}
+	for _, code := range []string{%s} {
+		run := func(opt bool) string {
+			p, err := expr.Compile(code, expr.Env(env), expr.Optimize(opt))
+			if err != nil {
+				return "compile error"
+			}
+			out, err := expr.Run(p, env)
+			if err != nil {
+				return "run error"
+			}
+			return fmt.Sprintf("%%T(%%v)", out, out)
+		}
+		on, off := run(true), run(false)
+		if on != off && !(on == "compile error" && off == "run error") {
+			t.Fatalf("VIOLATED: %%s gives %%s with the optimizer and %%s without", code, on, off)
+		}
+	}
+	t.Logf("clause holds on these literals")
+}
+`, o.Name, typ, typ, strings.Join(cases, ", "))
+		return runReplay(o, dir, ".", src)
 	}
 	va, _ := modelValue(o.Model, o.Meta["xa"])
 	vb, _ := modelValue(o.Model, o.Meta["xb"])
